@@ -54,6 +54,19 @@ type abortSentinel struct{ why string }
 func (w *World) Go(fn func()) int {
 	s := &w.sched
 	t := &task{id: s.nt, wake: make(chan struct{}, 1), fn: fn}
+	if s.nt == len(s.tasks) {
+		// table full: take over the slot of a task that has finished (a long round may start many short-lived
+		// goroutines; at most 64 can be alive at once)
+		if i := w.doneSlot(); i > 0 {
+			t.id = i
+			w.setTask(i, t)
+			if s.active {
+				s.wg.Add(1)
+				go w.taskMain(t)
+			}
+			return t.id
+		}
+	}
 	w.addTask(t)
 	if s.active {
 		s.wg.Add(1)
@@ -61,6 +74,20 @@ func (w *World) Go(fn func()) int {
 	}
 	return t.id
 }
+
+//go:norace
+func (w *World) doneSlot() int {
+	s := &w.sched
+	for i := 1; i < s.nt; i++ {
+		if s.tasks[i] != nil && s.tasks[i].state == tDone {
+			return i
+		}
+	}
+	return -1
+}
+
+//go:norace
+func (w *World) setTask(i int, t *task) { w.sched.tasks[i] = t }
 
 //go:norace
 func (w *World) addTask(t *task) {
@@ -115,6 +142,33 @@ func (w *World) RunOne(fn func()) string {
 	}
 	return ab
 }
+
+// EnterMain makes the calling goroutine task 0 of a scheduler round that lasts until LeaveMain: everything the
+// caller does in between runs under the baton, and goroutines the program starts meanwhile become further tasks,
+// interleaved with the caller by the world's seed (Config.PreemptDen) instead of by the machine.
+func (w *World) EnterMain() {
+	w.clearTasks()
+	t := &task{id: 0, wake: make(chan struct{}, 1)}
+	w.addTask(t)
+	w.setActive(true)
+	w.setCur(0)
+}
+
+// LeaveMain ends the round: the caller's task is finished, the remaining tasks run to completion (or the
+// round is aborted: "deadlock" if they wait for something nobody will do), and the scheduler is switched off.
+func (w *World) LeaveMain() string {
+	s := &w.sched
+	if s.nt > 0 && s.tasks[0] != nil && s.active {
+		w.finish(s.tasks[0]) // hands the baton on (or, after an abort, wakes the others so that they unwind)
+		s.wg.Wait()
+	}
+	w.setActive(false)
+	w.clearTasks()
+	return w.Aborted
+}
+
+//go:norace
+func (w *World) setCur(i int) { w.sched.cur = i }
 
 //go:norace
 func (w *World) clearTasks() {
